@@ -211,6 +211,52 @@ def linform(fl, e, at, atoms, depth=0):
     return None
 
 
+def _per_definition_forms(fl, e, at, atoms, depth=0):
+    """all linear forms `e` can take: like linform, but a name with several reaching definitions (one per branch) contributes one form per
+    definition. Returns a list of forms; [None] when some definition is not linear in the recognised atoms"""
+    if depth > 10:
+        return [None]
+    k = atoms(e, at)
+    if k is not None:
+        return [{k: F(1)}]
+    if isinstance(e, ast.Constant) and isinstance(e.value, (int, float)) and not isinstance(e.value, bool):
+        return [{"1": F(str(e.value))}]
+    if isinstance(e, ast.UnaryOp) and isinstance(e.op, ast.USub):
+        return [None if a is None else {k2: -v for k2, v in a.items()} for a in _per_definition_forms(fl, e.operand, at, atoms, depth + 1)]
+    if isinstance(e, ast.BinOp):
+        out = []
+        for a in _per_definition_forms(fl, e.left, at, atoms, depth + 1):
+            for b in _per_definition_forms(fl, e.right, at, atoms, depth + 1):
+                if a is None or b is None:
+                    out.append(None)
+                elif isinstance(e.op, (ast.Add, ast.Sub)):
+                    sg = 1 if isinstance(e.op, ast.Add) else -1
+                    r = dict(a)
+                    for k2, v in b.items():
+                        r[k2] = r.get(k2, 0) + sg * v
+                    out.append(r)
+                elif isinstance(e.op, ast.Mult) and set(a) <= {"1"}:
+                    out.append({k2: v * a.get("1", 0) for k2, v in b.items()})
+                elif isinstance(e.op, ast.Mult) and set(b) <= {"1"}:
+                    out.append({k2: v * b.get("1", 0) for k2, v in a.items()})
+                elif isinstance(e.op, ast.Div) and set(b) <= {"1"} and b.get("1"):
+                    out.append({k2: v / b["1"] for k2, v in a.items()})
+                else:
+                    out.append(None)
+        return out[:16]
+    if isinstance(e, ast.Name):
+        out = []
+        for d in fl.rd[at].get(e.id, ()):
+            if d == fl.cfg.entry:
+                return [None]
+            vals = fl.def_value(d, e.id)
+            if len(vals) != 1 or vals[0][0] != "expr":
+                return [None]
+            out += _per_definition_forms(fl, vals[0][1], d, atoms, depth + 1)
+        return out or [None]
+    return [None]
+
+
 def r09_2(rep, M, rid, only_first=False):
     fn = M.func(FQ)
     fl = Flow(fn)
@@ -246,6 +292,11 @@ def r09_2(rep, M, rid, only_first=False):
             if any(GEO + ".get_radii" in M.callees_of_call(FQ, c) for c in calls):
                 return "max_radii"
             return "max of something else than the resolved radii: " + norm(inner)
+        # sum of the two largest entries: an upper bound of r_i + r_j for two *different* atoms only - an atom and its own periodic image need 2 r_i
+        if isinstance(e, ast.Call) and isinstance(e.func, ast.Attribute) and e.func.attr == "sum" and not e.args and isinstance(e.func.value, ast.Subscript) \
+                and norm(e.func.value.slice).replace(" ", "") == "-2:" and isinstance(e.func.value.value, ast.Call) \
+                and norm(e.func.value.value.func).split(".")[-1] in ("sort", "sorted"):
+            return "sum of the two largest radii"
         # other reductions of the radii are not an upper bound of r_i + r_j
         if isinstance(e, ast.Call) and isinstance(e.func, ast.Attribute) and e.func.attr in ("min", "mean", "sum") and not e.args:
             return f"{e.func.attr} of {norm(e.func.value)}"
@@ -266,17 +317,24 @@ def r09_2(rep, M, rid, only_first=False):
         if cut is None:
             rep.ok(rid, construct + " [unbounded: default inf]")
             continue
-        lf = linform(fl, cut, n, atoms)
-        if lf is None:
+        lfs = [linform(fl, cut, n, atoms)]
+        if lfs[0] is None:
+            # a name with several reaching definitions (branches): every definition has to satisfy the bound on its own
+            lfs = _per_definition_forms(fl, cut, n, atoms)
+        if not lfs or any(lf is None for lf in lfs):
             raise AnalysisError(f"cutoff `{norm(cut)}` is not a linear form in threshold and max(radii)")
-        t, r, c0 = lf.get("threshold", 0), lf.get("max_radii", 0), lf.get("1", 0)
-        shown = " + ".join(f"{v}*{k}" for k, v in sorted(lf.items()))
-        if t >= 1 and r >= 2 and c0 >= 0 and set(lf) <= {"threshold", "max_radii", "1"}:
+        bad = None
+        for lf in lfs:
+            t, r, c0 = lf.get("threshold", 0), lf.get("max_radii", 0), lf.get("1", 0)
+            if not (t >= 1 and r >= 2 and c0 >= 0 and set(lf) <= {"threshold", "max_radii", "1"}):
+                bad = lf
+        shown = " | ".join(" + ".join(f"{v}*{k}" for k, v in sorted(lf.items())) for lf in ([bad] if bad else lfs))
+        if bad is None:
             rep.ok(rid, construct + f" = {shown} >= threshold + 2*max(radii)")
         else:
             rep.violation(rid, construct, f"cutoff = {shown}; a bonded pair (d - r_i - r_j <= threshold) can be as far apart as "
-                          "threshold + 2*max(radii), pairs beyond the cutoff are reported infinite, so bonds are lost",
-                          M.where(FQ, c))
+                          "threshold + 2*max(radii) - in particular an atom and its own periodic image in the doubled cell -, pairs beyond the cutoff are "
+                          "reported infinite, so bonds are lost", M.where(FQ, c))
     if only_first:
         return
     # clip bound and eps in get_clusters
